@@ -319,6 +319,27 @@ fn edit_password(rng: &mut Rng, p: &str) -> String {
     if s == p { format!("{}!", p) } else { s }
 }
 
+/// a credential set obtained from `base` by one of the edits of C04's quantifier
+pub fn edit_creds(rng: &mut Rng, base: &Creds) -> (Creds, &'static str) {
+    let mut c = base.clone();
+    let k = rng.below(8);
+    let edit = match k {
+        0 | 1 | 2 => { match &c.password { Some(p) => { c.password = Some(edit_password(rng, p)); "password-edit" } None => { c.password = Some(String::new()); "password-added-empty" } } }
+        3 => { if c.password.is_some() && c.keyfile.is_some() { c.password = None; "password-removed" } else { c.password = Some(format!("{}x", c.password.clone().unwrap_or_default())); "password-edit" } }
+        4 => { if c.keyfile.is_some() { c.keyfile = None; c.keyfile_key = None; if c.password.is_none() { "empty-credentials" } else { "keyfile-removed" } } else { let (f, kk, _) = gen_keyfile(rng); c.keyfile = Some(f); c.keyfile_key = Some(kk); "keyfile-added" } }
+        5 => { let (f, kk, _) = gen_keyfile(rng); c.keyfile = Some(f); c.keyfile_key = Some(kk); "keyfile-swapped" }
+        6 => { c.password = None; c.keyfile = None; c.keyfile_key = None; "empty-credentials" }
+        _ => {
+            // one bit flipped in the key material of a raw 32-byte key file
+            match (&mut c.keyfile, &mut c.keyfile_key) {
+                (Some(f), Some(kk)) if f.len() == 32 => { let i = rng.below(32) as usize; f[i] ^= 1 << rng.below(8); *kk = f.clone(); "keyfile-bit-flipped" }
+                _ => { c.password = Some(format!("{} ", c.password.clone().unwrap_or_default())); "password-trailing-blank" }
+            }
+        }
+    };
+    (c, edit)
+}
+
 fn c04(args: &Args, agg: &mut Aggregate) {
     run_cases(agg, args, "wrong-credentials", args.n(200, 4_000), |_i, rng, model| {
         let mut o = CaseOutcome::default();
@@ -328,23 +349,7 @@ fn c04(args: &Args, agg: &mut Aggregate) {
         if right.is_err() { o.violation = Some("the right credentials do not open the file".into()); return o; }
         let mut tried = 0;
         for _ in 0..12 {
-            // a credential set that differs semantically
-            let mut c = base.creds.clone();
-            let k = rng.below(8);
-            let edit = match k {
-                0 | 1 | 2 => { match &c.password { Some(p) => { c.password = Some(edit_password(rng, p)); "password-edit" } None => { c.password = Some(String::new()); "password-added-empty" } } }
-                3 => { if c.password.is_some() && c.keyfile.is_some() { c.password = None; "password-removed" } else { c.password = Some(format!("{}x", c.password.clone().unwrap_or_default())); "password-edit" } }
-                4 => { if c.keyfile.is_some() { c.keyfile = None; c.keyfile_key = None; if c.password.is_none() { "empty-credentials" } else { "keyfile-removed" } } else { let (f, kk, _) = gen_keyfile(rng); c.keyfile = Some(f); c.keyfile_key = Some(kk); "keyfile-added" } }
-                5 => { let (f, kk, _) = gen_keyfile(rng); c.keyfile = Some(f); c.keyfile_key = Some(kk); "keyfile-swapped" }
-                6 => { c.password = None; c.keyfile = None; c.keyfile_key = None; "empty-credentials" }
-                _ => {
-                    // one bit flipped in the key material of a raw 32-byte key file
-                    match (&mut c.keyfile, &mut c.keyfile_key) {
-                        (Some(f), Some(kk)) if f.len() == 32 => { let i = rng.below(32) as usize; f[i] ^= 1 << rng.below(8); *kk = f.clone(); "keyfile-bit-flipped" }
-                        _ => { c.password = Some(format!("{} ", c.password.clone().unwrap_or_default())); "password-trailing-blank" }
-                    }
-                }
-            };
+            let (c, edit) = edit_creds(rng, &base.creds);
             if c.elements() == base.creds.elements() { continue; } // semantically the same credentials
             tried += 1;
             o.tags.push(format!("edit:{}", edit));
@@ -361,6 +366,45 @@ fn c04(args: &Args, agg: &mut Aggregate) {
             let dec = model.eval_with(&format!("(decrypt4 {} {})", hexatom(&base.bytes), elements_term(&c.elements())), &oracle::serve);
             let m = dec.split(' ').take(2).collect::<Vec<_>>().join(" ");
             if m != impl_s && o.disagreement.is_none() { o.disagreement = Some((impl_s, m)); }
+        }
+        o.nontrivial = tried >= 3;
+        o
+    });
+    // the legacy containers, written by the independent writers under generated credentials
+    run_cases(agg, args, "wrong-credentials-legacy", args.n(150, 3_000), |i, rng, _model| {
+        let mut o = CaseOutcome::default();
+        let mut creds = gen_creds(rng);
+        while { let e = creds.elements(); e.len() == 1 && e[0].len() != 32 } { creds = gen_creds(rng); }
+        let els = creds.elements();
+        let (file, fmt) = if i % 2 == 0 {
+            let c = crate::legacy::gen_kdb_content(rng, false);
+            let payload = crate::legacy::kdb_payload(rng, &c);
+            let meta = crate::legacy::KdbFile { twofish: rng.chance(1, 2), rounds: *rng.pick(&[0u32, 1, 3, 50]), subversion: 0x00030004 };
+            (crate::legacy::kdb_file(rng, &meta, c.groups.len() as u32, c.entries.len() as u32, &payload, &els), "kdb")
+        } else {
+            let Some(base) = make_base(rng, true) else { return o; };
+            let Ok(s) = strict::read(&base.bytes, &base.creds.elements()) else { return o; };
+            let mut k3 = crate::legacy::K3::gen(rng);
+            k3.rounds = k3.rounds.min(100);
+            let Some(xml_iso) = crate::legacy::iso_all(&s.xml) else { o.input = "(skipped)".into(); return o; };
+            let Some((xml3, _)) = crate::legacy::reprotect(&xml_iso, (s.inner_cipher, &s.inner_key), (k3.inner, &k3.psk)) else { return o; };
+            (k3.build(rng, &xml3, &els), "kdbx3")
+        };
+        o.input = format!("({} {} bytes creds {} password {:?})", fmt, file.len(), creds.kind, creds.password);
+        o.tags.push(format!("format:{}", fmt));
+        if let Err(e) = Database::open(&mut &file[..], creds.key()) { o.violation = Some(format!("the right credentials do not open the {} file: {}", fmt, open_error_class(&e))); return o; }
+        let mut tried = 0;
+        for _ in 0..10 {
+            let (c, edit) = edit_creds(rng, &creds);
+            if c.elements() == els { continue; }
+            // KDB uses a lone 32-byte element as it is: SHA-256(password) alone and a raw key file holding those bytes are the same key
+            tried += 1;
+            o.tags.push(format!("edit:{}", edit));
+            match catch(|| Database::open(&mut &file[..], c.key())) {
+                Err(p) => o.violation = Some(format!("open panicked: {}", p)),
+                Ok(Ok(_)) => o.violation = Some(format!("credentials differing by {} opened the {} database", edit, fmt)),
+                Ok(Err(e)) => o.tags.push(format!("error:{}", open_error_class(&e))),
+            }
         }
         o.nontrivial = tried >= 3;
         o
@@ -389,7 +433,7 @@ fn c04(args: &Args, agg: &mut Aggregate) {
         o.nontrivial = true;
         o
     });
-    write_report(args, agg, "streams: wrong-credentials (small saved databases under every credential composition and key-file encoding x up to 12 semantically different credential sets: password substitution/insertion/deletion/case/NUL/combining mark/leading or trailing blank, password removed or added, key file removed/added/swapped/one bit flipped, empty credentials; result class compared with the model's decrypt4) and fixtures (all three formats, five wrong credential sets each); non-trivial = at least three semantically different edits tried", serde_json::json!({}));
+    write_report(args, agg, "streams: wrong-credentials (small saved databases under every credential composition and key-file encoding x up to 12 semantically different credential sets: password substitution/insertion/deletion/case/NUL/combining mark/leading or trailing blank, password removed or added, key file removed/added/swapped/one bit flipped, empty credentials; result class compared with the model's decrypt4), wrong-credentials-legacy (KDB and KDBX 3.1 files built by the independent writers under generated credentials x up to 10 such edits: opening must fail with an error) and fixtures (all three formats, five wrong credential sets each); non-trivial = at least three semantically different edits tried", serde_json::json!({}));
 }
 
 // ---------------- C05: alterations without the key ----------------
@@ -495,7 +539,7 @@ fn c05(args: &Args, agg: &mut Aggregate) {
 fn c06(args: &Args, agg: &mut Aggregate) {
     let fixture_files: Vec<(Vec<u8>, DatabaseKey)> = FIXTURES.iter().map(|f| (f.bytes(), f.key())).collect();
     // stream 1: prefixes and random damage of every corpus file (all three formats)
-    run_cases(agg, args, "corpus-damage", args.n(3_000, 200_000), |_i, rng, _model| {
+    run_cases(agg, args, "corpus-damage", args.n(3_000, 30_000), |_i, rng, _model| {
         let mut o = CaseOutcome::default();
         let fi = rng.below(fixture_files.len() as u64) as usize;
         let (b, key) = &fixture_files[fi];
@@ -522,7 +566,7 @@ fn c06(args: &Args, agg: &mut Aggregate) {
         o
     });
     // stream 2: structure-aware, authenticated mutations of KDBX4 files, compared with the model
-    run_cases(agg, args, "kdbx4-structure", args.n(400, 20_000), |_i, rng, model| {
+    run_cases(agg, args, "kdbx4-structure", args.n(400, 4_000), |_i, rng, model| {
         let mut o = CaseOutcome::default();
         let Some(base) = make_base(rng, true) else { o.violation = Some("save failed".into()); return o; };
         let els = base.creds.elements();
@@ -569,7 +613,57 @@ fn c06(args: &Args, agg: &mut Aggregate) {
         o
     });
     crate::legacy::c06_streams(agg, args);
-    write_report(args, agg, "streams: corpus-damage (every repository sample file of all three formats: every kind of prefix, random byte damage, extreme 32-bit length words in the first 300 bytes, random bytes, prefix plus noise; open, get_xml, get_version and open with arbitrary key-file bytes, each under catch_unwind) and kdbx4-structure (saved files rebuilt WITH the key by an independent builder after a structure-aware mutation: missing/duplicate/unknown/short/long header fields, damaged KDF dictionary, damaged inner header, truncated XML, ill-typed element text incl. short and over-range base64 time stamps, no terminator block, flipped compression flag, deep group nesting, end-field content; result class compared with the model's decrypt4), kdb-structure (generated KDB content laid out by the independent KDB writer, damaged at record level - extreme and off-by-one size words, unknown types, truncation, wrong group/entry counts, removed/duplicated/swapped records, wrong widths of fixed-width fields, level jumps - and then authenticated: content hash and encryption redone; result compared with the extracted KDB reader) and kdbx3-structure (independent KDBX 3.1 writer: truncated/ill-typed XML, extreme block size words, missing final block, empty stream, payload cut inside a block header or the stream start bytes, wrong block hash; result class compared with the extracted KDBX 3.1 reader); every case is non-trivial", serde_json::json!({}));
+    // key files: structure-aware variation of XML key files (attributes, versions, payloads, nesting)
+    run_cases(agg, args, "keyfile-structure", args.n(1_500, 15_000), |_i, rng, model| {
+        let mut o = CaseOutcome::default();
+        let hexd = |rng: &mut Rng, n: usize| -> String { let b = rng.bytes(n); if rng.chance(1, 2) { hex_upper(&b) } else { hex::encode(&b) } };
+        let version = rng.pick(&["2.0", "2.0", "1.00", "1.0", "2", "3.0", "", "2.0.1", " 2.0 "]).to_string();
+        let payload_len = *rng.pick(&[32usize, 32, 0, 1, 16, 31, 33, 64]);
+        let payload = match rng.below(5) {
+            0 | 1 => hexd(rng, payload_len),
+            2 => base64::Engine::encode(&base64::engine::general_purpose::STANDARD, &rng.bytes(payload_len)),
+            3 => { let mut h = hexd(rng, payload_len); h.push_str(*rng.pick(&["g", " ", "\n", "0", "zz"])); h }
+            _ => rng.pick(&["", " ", "not hex at all", "&#65;&#66;", "<![CDATA[41]]>"]).to_string(),
+        };
+        let hash_attr = match rng.below(8) {
+            0 => String::new(),
+            1 => format!(" Hash=\"{}\"", hexd(rng, 4)),
+            2 => format!(" Hash=\"{}\"", hexd(rng, 32)),
+            3 => { let n = *rng.pick(&[33usize, 40, 64, 100, 1000]); format!(" Hash=\"{}\"", hexd(rng, n)) }
+            4 => format!(" Hash=\"{}\"", rng.pick(&["", "0", "abc", "xyz", "12 34", "\u{e9}"])),
+            5 => format!(" Hash=\"{}\" Hash2=\"{}\"", hexd(rng, 4), hexd(rng, 40)),
+            6 => format!(" hash=\"{}\"", hexd(rng, 50)),
+            _ => format!(" Hash='{}'", hexd(rng, 5)),
+        };
+        let meta = if rng.chance(5, 6) { format!("<Meta><Version>{}</Version></Meta>", version) } else { String::new() };
+        let data = format!("<Data{}>{}</Data>", hash_attr, payload);
+        let key = match rng.below(6) { 0 => format!("<Key>{}{}</Key>", data, data), 1 => format!("<Key><Wrap>{}</Wrap></Key>", data), 2 => "<Key/>".to_string(), 3 => format!("<Key>{}", data), _ => format!("<Key>{}</Key>", data) };
+        let doc = match rng.below(6) { 0 => format!("<KeyFile>{}{}</KeyFile>", key, meta), 1 => format!("<keyfile>{}{}</keyfile>", meta, key), 2 => format!("<?xml version=\"1.0\" encoding=\"utf-8\"?>\n<KeyFile>\n{}\n{}\n</KeyFile>", meta, key), _ => format!("<KeyFile>{}{}</KeyFile>", meta, key) };
+        let kf = doc.into_bytes();
+        o.input = format!("(keyfile {})", String::from_utf8_lossy(&kf).chars().take(300).collect::<String>());
+        o.tags.push(format!("version:{:?}", version));
+        o.tags.push(format!("hash-attr:{}", match hash_attr.len() { 0 => "none", 1..=20 => "short", 21..=80 => "digest-sized", _ => "long" }));
+        // the key file is evaluated when the key is used: derive the elements through a real open
+        let (b, _) = &fixture_files[4];   // a small KDBX4 file; its own credentials do not matter here
+        let r = catch(|| { let mut rd: &[u8] = &kf; let k = DatabaseKey::new().with_password("x").with_keyfile(&mut rd); k.map(|k| Database::open(&mut &b[..], k).map(|_| ())) });
+        match &r {
+            Err(p) => { o.violation = Some(format!("using an XML key file panicked: {}", p)); o.violation_class = Some(panic_class(p)); }
+            Ok(_) => {}
+        }
+        // correspondence with the key model: the elements the model derives open exactly when the library's do
+        let m = model.eval_with(&format!("(key-elements (some {}) (some ({} {})))", hexatom(b"x"), hexatom(&kf), keyfile_events(&kf)), &oracle::serve);
+        if let Some(rest) = m.strip_prefix("ok ") {
+            // the model's elements, used through the framing model, must give the same verdict as the library
+            let els_term = format!("(ok {})", rest);
+            let dec = model.eval_with(&format!("(decrypt4 {} {})", hexatom(b), els_term), &oracle::serve);
+            let impl_s = match &r { Ok(Ok(Ok(()))) => "ok".to_string(), Ok(Ok(Err(e))) => format!("err {}", open_error_class(e)), Ok(Err(_)) => "io".to_string(), Err(_) => "panic".to_string() };
+            let m_s = if dec.starts_with("ok ") { "ok".to_string() } else { dec.clone() };
+            if m_s != impl_s && impl_s != "panic" { o.disagreement = Some((impl_s, m_s.chars().take(100).collect())); }
+        }
+        o.nontrivial = true;
+        o
+    });
+    write_report(args, agg, "streams: corpus-damage (every repository sample file of all three formats: every kind of prefix, random byte damage, extreme 32-bit length words in the first 300 bytes, random bytes, prefix plus noise; open, get_xml, get_version and open with arbitrary key-file bytes, each under catch_unwind) and kdbx4-structure (saved files rebuilt WITH the key by an independent builder after a structure-aware mutation: missing/duplicate/unknown/short/long header fields, damaged KDF dictionary, damaged inner header, truncated XML, ill-typed element text incl. short and over-range base64 time stamps, no terminator block, flipped compression flag, deep group nesting, end-field content; result class compared with the model's decrypt4), kdb-structure (generated KDB content laid out by the independent KDB writer, damaged at record level - extreme and off-by-one size words, unknown types, truncation, wrong group/entry counts, removed/duplicated/swapped records, wrong widths of fixed-width fields, level jumps - and then authenticated: content hash and encryption redone; result compared with the extracted KDB reader) and kdbx3-structure (independent KDBX 3.1 writer: truncated/ill-typed XML, extreme block size words, missing final block, empty stream, payload cut inside a block header or the stream start bytes, wrong block hash; result class compared with the extracted KDBX 3.1 reader) and keyfile-structure (XML key files with varied versions, Hash attributes of every length and shape, hex/base64/other payloads, duplicated, nested, missing and unterminated elements; used through with_keyfile + open; verdict compared with the key model fed the xml-rs events); every case is non-trivial", serde_json::json!({}));
 }
 
 /// class of a panic message, for matching the known findings by site
